@@ -383,6 +383,13 @@ def simplify_unitary(expr: e.Expr, t_name: str,
         for (i1, i2) in combinations(unitary_tensors, 2):
             idx1 = obj[i1].idx
             idx2 = obj[i2].idx
+            # U_pq U_pq: both indices are shared. If both are contracted and
+            # occur nowhere else, the trace sum_q delta_qq can not be
+            # represented by a delta (delta_qq evaluates to 1 and the
+            # contraction over q would be lost) -> skip the pair
+            if idx1 == idx2 and all(s not in target and idx_counter[s] == 2
+                                    for s in idx1):
+                continue
             # U_pq U_pr = delta_qr
             if idx1[0] == idx2[0] and idx1[0] not in target and \
                     idx_counter[idx1[0]] == 2:
